@@ -68,7 +68,7 @@ Definition out_space (s : space (T:=float)) : list Z :=
   out_list (keys (sp_sent s)) ++ [sp_aeif s] ++ out_optf (sp_loss_time s).
 
 Definition out_evs (l : list ev) : list Z :=
-  Zlen l :: flat_map (fun e => [fst (fst e); snd (fst e); b2z (snd e)]) l.
+  Zlen l :: flat_map (fun e => [Z.of_nat (fst (fst e)); snd (fst e); b2z (snd e)]) l.
 
 Definition obs (st : rec (T:=float) (C:=C)) : list Z :=
   [cc_flags cc (r_cc st); b2z (pc_anom (r_pacer st));
